@@ -239,6 +239,22 @@ Definition min_sigs_b (p : spol) : option nat :=
             (assignments (leaves_of p)) None.
 Definition mixed_b (p : cpol) : bool := existsb path_mixes (paths p).
 
+(* a counter-assignment (the leaves that are on) or None when the two tables agree *)
+Definition cex_equiv (p out : spol) : option (list spol) :=
+  equiv_on (leaves_of p ++ leaves_of out) (fun rho => evalA rho p) (fun rho => evalA rho out).
+Definition cex_age (a : rel_lt) (p out : spol) : option (list spol) :=
+  equiv_on (leaves_of p ++ leaves_of out)
+           (fun rho => evalA (restrict_age a rho) p) (fun rho => evalA rho out).
+Definition cex_lock (n : abs_lt) (p out : spol) : option (list spol) :=
+  equiv_on (leaves_of p ++ leaves_of out)
+           (fun rho => evalA (restrict_lock n rho) p) (fun rho => evalA rho out).
+Definition cex_lift (c : cpol) (out : spol) : option (list spol) :=
+  equiv_on (cleaves_of c ++ leaves_of out) (fun rho => evalC rho c) (fun rho => evalA rho out).
+Definition cex_implies (p q : spol) : option (list spol) :=
+  find (fun on => evalA (rho_of on) p && negb (evalA (rho_of on) q))
+       (assignments (leaves_of p ++ leaves_of q)).
+
+
 (* ------------------------------------------------------------------------------------
    Input classes on which the pinned implementation is known to deviate from the
    specification (each is the side condition of a theorem in Properties/C18.v and the key
